@@ -33,13 +33,14 @@ def pick_build_cfg(t):
         build=b.weighted([(4, "create_engine"), (2, "ctor"), (2, "cook_args"), (2, "split"), (1, "cook_twice")]),
         dr=b.chance(30), dtr=b.chance(30), ec=b.chance(20), jl=b.chance(20), sdl_file=b.chance(15),
         sdl_spell=(1 + b.draw(5000)) if b.chance(25) else 0,
+        atr=b.chance(25),  # some type resolvers written as `async def` (the form the documentation shows)
     )
 
 
 def build_probes(cfg, out, engine=None):
     p = {"engine_built_by_" + (cfg.get("build") or "create_engine"): 1}
     for k, label in (("dr", "custom_default_resolver"), ("dtr", "custom_default_type_resolver"), ("ec", "identity_error_coercer"),
-                     ("jl", "custom_json_loader"), ("sdl_file", "sdl_from_file"), ("sdl_spell", "sdl_respelt")):
+                     ("jl", "custom_json_loader"), ("sdl_file", "sdl_from_file"), ("sdl_spell", "sdl_respelt"), ("atr", "async_type_resolvers")):
         if cfg.get(k):
             p["engine_with_" + label] = 1
     rt = getattr(out, "rt", None)
